@@ -45,6 +45,7 @@ def C06(ctx):
     if ctx.quick:
         cases = ctx.sample([c for c in cases if miss(c) or verdict(c) == 'yes'], 700, must=lambda c: False)
     ctx.res.cov['exhaustive'] = not ctx.quick
+    ctx.design_analyze(cases, limit=600 if ctx.quick else 2000, label='family G n<=3 ')
     ctx.run(cases, nontrivial=miss, runtime=False)
     ctx.rules.append('family X: a needed type missing behind a binding (directly and two levels down), behind a "*" struct field carrying a foreign struct tag, '
                      'in the first / second of two injector files of one package; family B/S near misses (no binding for an interface, *F from a value struct)')
@@ -65,7 +66,16 @@ def C07(ctx):
     cyc = lambda c: 'cycle' in reasons(c)
     cases = ctx.export(G(3, 'f'))
     ctx.res.cov['exhaustive'] = True
+    ctx.rules.append('design level: WireAnalyze (cycle search with one shared visited set marked at pop, roots in every order) is model-checked against WireSem on these digraphs (AcyclicRefines, AcyclicWork, Termination); '
+                     'conformance: for a sample of accepted programs wire is run per package with the verif hooks and the loop-iteration counters of verifyAcyclic and solve must EQUAL the counts the WireAnalyze machine predicts')
+    pred = ctx.design_analyze(cases, limit=1100 if ctx.quick else 1100, label='all digraphs n<=3 ')
     ctx.run(cases, nontrivial=cyc, runtime=False)
+    acc = ctx.sample([c for c in ctx.export(G(3)) if verdict(c) == 'yes'], 60 if ctx.quick else 300)
+    pred2 = ctx.design_analyze(acc, label='accepted programs with parameters ')
+    for c in acc:
+        if c['key'] in pred2:
+            c['workpred'] = sorted(list(x) for x in pred2[c['key']])
+    ctx.run(acc, nontrivial=lambda c: True, runtime=False, build=False, single=True)
     big = ctx.export(G(4, 'f', ('set',)), pre_sample=400 if ctx.quick else None)
     ctx.run(big, nontrivial=cyc, runtime=False)
     ctx.rules.append('split: the providers of every digraph (n=3; sample of n=4 in thorough) distributed over two sets joined by a set without providers of its own; '
@@ -168,6 +178,7 @@ def C05(ctx):
     if ctx.quick:
         cases = ctx.sample(cases, 700)
     cases += ctx.export('FamilyX(p, {"same-set-twice-direct", "same-set-twice-in-set"})')
+    ctx.design_analyze(cases, limit=500 if ctx.quick else 1200, label='family K ')
     ctx.run(cases, runtime=False, check=True)
 
 
@@ -179,7 +190,9 @@ def C08(ctx):
                      'plus every program of family G passed directly; non-trivial = WireSem: UnusedDirect # {} or an indirectly used item; '
                      'judge: unused => rejected with an unused diagnostic and no output; contributing => accepted; partially used FieldsOf lists are free')
     nt = lambda c: 'unused' in reasons(c) or c['key'].startswith('U/indirect')
-    ctx.run(ctx.export('FamilyU(p)'), nontrivial=nt, runtime=True, switches=W_ONLY)
+    ucases = ctx.export('FamilyU(p)')
+    ctx.design_analyze(ucases, label='family U ')
+    ctx.run(ucases, nontrivial=nt, runtime=True, switches=W_ONLY)
     g = [c for c in ctx.export(G(3, 'all', ('dir',))) if 'unused' in reasons(c) or verdict(c) == 'yes']
     if ctx.quick:
         g = ctx.sample(g, 400)
@@ -216,6 +229,7 @@ def C10(ctx):
         w = json.dumps(c['expect'][0]['wiring'], sort_keys=True)
         if byb.setdefault(b, w) != w:
             raise Broken('WireSem wiring differs between regroupings of base ' + b)
+    ctx.design_analyze(cases, limit=250 if ctx.quick else 1500, label='family M ')
     ctx.run(cases, nontrivial=lambda c: c['prog']['sets'] != [], runtime=True, switches=W_ONLY)
 
 
@@ -230,6 +244,7 @@ def C11(ctx):
     if ctx.quick:
         cases = ctx.sample(cases, 450)
     ctx.design_inject(cases, maxcalls=2, label='family B ')
+    ctx.design_analyze(cases, limit=250 if ctx.quick else 1000, label='family B ', free_roots=False)
     ctx.run(cases, runtime=True, switches=W_ONLY)
     ctx.rules.append('family X: binding an interface to an interface that lacks a method, an injector that returns one of several arguments through a binding without calling any provider, '
                      'two sets sharing their first import of which only one provides the bound type')
